@@ -13,7 +13,10 @@ import (
 	"time"
 
 	"github.com/csgura/fp"
+	"github.com/csgura/fp/iterator"
 	"github.com/csgura/fp/lazy"
+	"github.com/csgura/fp/list"
+	"github.com/csgura/fp/seq"
 	. "verifharness/common"
 )
 
@@ -414,6 +417,45 @@ func direct(r *Rng, sink *Sink, n int, deep int) int {
 		if got != d || maxD-minD > 2 || maxD > 64 {
 			sink.DirectFail(fmt.Sprintf("lazy.TailCall%d/stack", arity), fmt.Sprintf("(law stack-safe arity=%d depth=%d)", arity, d),
 				fmt.Sprintf("result %d, call depth between %d and %d over %d probes", got, minD, maxD, len(depthProbe)))
+		}
+	}
+	// the library's own tail-recursive programs: FoldRight of seq / iterator / list hands its step function the DEFERRED rest of
+	// the fold (a TailCall); a step that returns it in tail position (a search that short-circuits, or here: ignores the element)
+	// runs in a call depth independent of the length (seed C16-9: the rest built as Call(func(){ FoldRight(tail).Get() }), one
+	// nested Run loop per element)
+	for _, fr := range []struct {
+		name string
+		run  func(n int, step func(int, Ev) Ev) int
+	}{
+		{"seq.FoldRight", func(n int, step func(int, Ev) Ev) int { return seq.FoldRight(iterator.Range(0, n).ToSeq(), -1, step).Get() }},
+		{"iterator.FoldRight", func(n int, step func(int, Ev) Ev) int { return iterator.FoldRight(iterator.Range(0, n), -1, step).Get() }},
+		{"list.FoldRight", func(n int, step func(int, Ev) Ev) int { return list.FoldRight(list.FromSeq(iterator.Range(0, n).ToSeq()), -1, step).Get() }},
+	} {
+		for _, n := range []int{3000, deep / 10} {
+			depthProbe = depthProbe[:0]
+			step := func(a int, rest Ev) Ev {
+				if a%1000 == 7 {
+					depthProbe = append(depthProbe, callDepth())
+				}
+				return rest
+			}
+			in := fmt.Sprintf("(law stack-safe %s length=%d)", fr.name, n)
+			if n > 3000 {
+				sink.Probe(outDir, fr.name+"/stack", in)
+			}
+			got := fr.run(n, step)
+			if n > 3000 {
+				sink.ProbeDone(outDir)
+			}
+			checks++
+			minD, maxD := 1<<30, 0
+			for _, x := range depthProbe {
+				minD, maxD = min(minD, x), max(maxD, x)
+			}
+			if got != -1 || maxD-minD > 2 || maxD > 64 {
+				sink.DirectFail(fr.name+"/stack", in, fmt.Sprintf("result %d, call depth between %d and %d over %d probes", got, minD, maxD, len(depthProbe)))
+				break // the deep run would only kill the process
+			}
 		}
 	}
 	return checks
